@@ -52,11 +52,8 @@ def implies(a, b):
 
 
 def base_env():
-    env = {'dictview': lambda d: {k: tuple(v) for k, v in d.items()},
-           'strs': lambda: ['', 'a', 'wl_surface', 'wl_*', '*', 'xdg_*', 'wl_display', 'x y', '*a*', 'wl_registry', 'wl_callback', 'wl_buffer', '.', 'a.b'],
-           'ints': lambda: list(range(-3, 48)) + list(range(0xff000000 - 2, 0xff000000 + 4)),
-           'cast': lambda cls, x: x,
-           'implies': implies, 'sext': lambda a, b: a == b, 'typed': lambda x, t: x, 'fresh': lambda x: True}
+    from . import specbuiltins
+    env = {k: getattr(specbuiltins, k) for k in specbuiltins.__all__}
     env.update(contracts.SPECFNS)
     env.update(contracts.SPECPREDS)
     from . import ntrace
@@ -124,7 +121,10 @@ def check_call(c, fn, args, kwargs=None):
     env.update(ba.arguments)
     for n, text in c.let_d:
         code, olds = _compile(text)
-        env[n] = eval(code, env)
+        try:
+            env[n] = eval(code, env)
+        except Exception as e:
+            env[n] = _Unavailable(e)
     for name, text in c.requires_l:
         code, olds = _compile(text)
         try:
